@@ -228,6 +228,8 @@ class Model:
             raise ModelError('boolean where an integer is expected')
         if isinstance(v, int):
             return v
+        if type(v).__name__ == 'SymInt':
+            return v            # a symbolic bound / tag number (kernel harnesses)
         if isinstance(v, str):
             if named and v in named:
                 return named[v]
